@@ -28,6 +28,10 @@ def _typed(job, W):
 def _call(bct, job, rng, start):
     fn = job["fn"]
     W = _typed(job, np.array(job["W"], dtype=float))
+    # guard-boundary inputs: connections perturbed by about 1e-9 in the REAL call only (the record keeps
+    # the integer matrix; Trace_Louvain reads r.noisy and turns strict comparisons into non-strict ones)
+    for a, b, d in job.get("noise") or []:
+        W[a, b] += d
     if start is not None and job.get("start_type"):
         start = {"list": list, "float": lambda c: np.array(c, dtype=float),
                  "int32": lambda c: np.array(c, dtype=np.int32)}[job["start_type"]](start)
@@ -64,7 +68,7 @@ def exec_job(job):
                objective=job.get("objective", ""), start=[int(x) for x in (job.get("start") or [])],
                raised="", malformed="", events=[], ci_out=[], q_out=0, hier_ci=[], hier_q=[],
                fed_ci=[], level_q_comparable=1, expect_ci=[], expect_qnum=0, expect_qden=0,
-               script_status="none")
+               script_status="none", noisy=int(bool(job.get("noise"))))
     if fn == "modularity_probtune_und_sign":
         rec["kind"] = "prob"
     events = []
@@ -148,7 +152,7 @@ def exec_given(bct, job):
     rec = dict(fn=fn + "[kci]", prop=job["prop"], kind="given", n=n, W=encode.mat_int(W), gn=job["gn"],
                gd=job["gd"], qtype=job.get("qtype", ""), objective="", start=[int(x) for x in job["start"]],
                raised="", malformed="", events=[], ci_out=[], q_out=0, hier_ci=[], hier_q=[], fed_ci=[],
-               level_q_comparable=1, expect_ci=[], expect_qnum=0, expect_qden=0, script_status="none")
+               level_q_comparable=1, expect_ci=[], expect_qnum=0, expect_qden=0, script_status="none", noisy=0)
     try:
         if fn == "modularity_und_sign":
             ci, q = bct.modularity_und_sign(W, np.array(job["start"]), qtype=job["qtype"])
